@@ -206,23 +206,56 @@ class Judge:
             ctx.inconc("%d cases ran into the watchdog with both generators (listed under timeouts_of_both_generators)" % n)
 
 
-def compile_problem(ctx, wl, cls, name, errors, exes, source_text, front_end_ok_means_backend=True):
-    """One generator accepted the program and the other did not (or a generator crashed): violation. Both rejecting the same
-    way is the workload generator's problem and handled by the caller. -> True if reported"""
+def crash_signature(text):
+    """Stable one-line signature of a compiler failure: first error/panic line (+ top Dora frames of a fatal error)."""
+    lines = [l for l in text.splitlines() if l.strip()]
+    first = next((l.strip() for l in lines if "panicked at" in l or l.startswith(("fatal error:", "error:"))), lines[-1].strip() if lines else "")
+    m = re.search(r"panicked at ([^\s:]+:\d+)", first)
+    if m:
+        nxt = lines[lines.index(next(l for l in lines if "panicked at" in l)) + 1].strip() if any("panicked at" in l for l in lines[:-1]) else ""
+        return "panic@%s:%s" % (re.sub(r"^/rustc/[0-9a-f]+/library/", "rustlib/", m.group(1).split("/repo/")[-1]), re.sub(r"\d+", "N", nxt)[:60])
+    frames = []
+    if first.startswith("fatal error"):
+        for l in lines:
+            fm = re.match(r"^\s+(.*) \(\S+:\d+:\d+\)\s*$", l)
+            if fm and len(frames) < 3:
+                frames.append(re.split(r"::", fm.group(1))[-1])
+    return re.sub(r"\d+", "N", first)[:120] + ("@" + ">".join(frames) if frames else "")
+
+
+def compile_problem(ctx, wl, cls, name, errors, exes, source_text):
+    """One generator accepted the program and the other did not: violation. (Both failing the same way is not a disagreement
+    and is handled by the caller.) -> True if reported"""
     if not errors or len(errors) == len(CFGS):
         return False
     for cfg, r in errors.items():
+        cfgname = cfg[0] if isinstance(cfg, tuple) else cfg
         if r.timeout:
-            ctx.inconc("%s %s: compile watchdog (%s)" % (wl, name, cfg))
+            ctx.inconc("%s %s: compile watchdog (%s)" % (wl, name, cfgname))
             return True
         text = progrun.compile_error_text(r)
-        lines = [l for l in text.splitlines() if l.strip()]
-        first = next((l for l in lines if "panicked at" in l or l.startswith(("fatal error:", "error:", "thread "))), lines[-1] if lines else "")
-        first = re.sub(r"\d+", "N", first)[:140]
-        ctx.violation("c02:compile-disagree:%s:%s:%s" % (cls, cfg, first),
-                      "%s %s: the %s code generator fails on a program the other one compiles:\n%s" % (wl, name, cfg, text[-1500:]),
+        ctx.violation("c02:compile-disagree:%s:%s:%s" % (cls, cfgname, crash_signature(text)),
+                      "%s %s: the %s code generator fails on a program the other one compiles:\n%s" % (wl, name, cfgname, text[-1500:]),
                       files={"program.dora": source_text})
     return True
+
+
+def both_fail(ctx, wl, name, errors):
+    """Both generators fail on the program. A front-end diagnostic is the workload's problem; a crash of the shared pipeline
+    (front end / AOT closure) is recorded in the evidence -- it is no *disagreement* and belongs to C05/C06."""
+    texts = [progrun.compile_error_text(r) for r in errors.values()]
+    if any(r.timeout for r in errors.values()):
+        ctx.inconc("%s %s: compile watchdog" % (wl, name))
+        return "timeout"
+    if any("panicked at" in t or "fatal error" in t for t in texts) or not all(re.search(r"(?m)^error", t) for t in texts):
+        sigs = sorted({crash_signature(t) for t in texts})
+        ctx.count("compiler_crashes_with_both_generators:" + wl)
+        lst = ctx.extra.setdefault("compiler_crashes_with_both_generators", [])
+        if len(lst) < 60:
+            lst.append("%s %s: %s" % (wl, name, " | ".join(sigs)))
+        return "crash"
+    ctx.count("%s_rejected_by_front_end" % wl)
+    return "rejected"
 
 
 # ---------------------------------------------------------------------------------------------------------------
@@ -331,13 +364,11 @@ def run_std(ctx, J, mc):
         b = built[p.name]
         if b.errors:
             if len(b.errors) == len(CFGS):
-                r = list(b.errors.values())[0]
-                if any(x.timeout for x in b.errors.values()):
-                    ctx.inconc("std %s: compile watchdog" % p.name)
-                else:
-                    # the batch does not compile: a defect of this generator (validated per template, not per value combination)
-                    ctx.count("std_batches_rejected_by_front_end")
-                    ctx.inconc("std batch %s rejected by the front end: %s" % (p.name, progrun.compile_error_text(r)[-300:]))
+                # validated per template, not per value combination: a batch that does not build is lost (inconclusive)
+                kind = both_fail(ctx, "std", p.name, b.errors)
+                if kind != "timeout":
+                    ctx.inconc("std batch %s does not build with either generator (%s): %s" % (
+                        p.name, kind, progrun.compile_error_text(list(b.errors.values())[0])[-300:]))
             else:
                 compile_problem(ctx, "std", "std-batch", p.name, b.errors, b.exes, p.source())
             continue
@@ -398,14 +429,9 @@ def run_corpus(ctx, J):
         b = built[p.rel]
         if b.errors:
             if len(b.errors) == len(CFGS):
-                texts = {c: progrun.compile_error_text(r) for c, r in b.errors.items()}
-                if any(r.timeout for r in b.errors.values()):
-                    ctx.inconc("corpus %s: compile watchdog" % p.rel)
-                elif any("panicked at" in t or "fatal error" in t for t in texts.values()):
-                    compile_problem(ctx, "corpus", p.rel, p.rel, {c: r for c, r in list(b.errors.items())[:1]}, {}, p.text())
-                else:
-                    ctx.count("corpus_rejected_by_front_end")
-                    ctx.extra.setdefault("corpus_rejected_by_front_end", []).append("%s: %s" % (p.rel, texts["cannon"][-200:]))
+                if both_fail(ctx, "corpus", p.rel, b.errors) == "rejected":
+                    ctx.extra.setdefault("corpus_rejected_by_front_end", []).append(
+                        "%s: %s" % (p.rel, progrun.compile_error_text(b.errors["cannon"])[-200:]))
             else:
                 compile_problem(ctx, "corpus", p.rel, p.rel, b.errors, b.exes, p.text())
             continue
@@ -565,15 +591,7 @@ def run_mutants(ctx, J, sel, times):
         b = built[tag]
         if b.errors:
             if len(b.errors) == len(CFGS):
-                texts = [progrun.compile_error_text(r) for r in b.errors.values()]
-                if any(r.timeout for r in b.errors.values()):
-                    ctx.count("mutants_compile_timeout")
-                elif any("panicked at" in t for t in texts) or not all(re.search(r"(?m)^error", t) for t in texts):
-                    # not a front-end diagnostic: a generator (or the front end) crashed on an accepted-looking program
-                    k = list(b.errors.items())
-                    compile_problem(ctx, "mutant", "mutant:" + p.rel, tag + " " + meta[tag][1], dict(k[:1]), {}, meta[tag][2])
-                else:
-                    ctx.count("mutants_rejected_by_front_end")
+                both_fail(ctx, "mutants", tag + " of " + p.rel + " (" + meta[tag][1] + ")", b.errors)
             else:
                 compile_problem(ctx, "mutant", "mutant:" + p.rel, tag + " " + meta[tag][1], b.errors, b.exes, meta[tag][2])
             continue
